@@ -404,17 +404,24 @@ class ModelState(object):
         raise KeyError(method)
 
 
-class Probe(SyncObj):
+class BareProbe(SyncObj):
+    """SyncObj on the simulated transport, no replicated methods of its own.
+    Harness back-references are set before SyncObj.__init__, so they are not
+    part of snapshots; replicated state is set after it."""
+
     def __init__(self, selfAddr, others, conf, sim, name, consumers=None):
         self._sim = sim
         self._simname = name
-        super(Probe, self).__init__(selfAddr, others, conf, consumers=consumers, transportClass=SimTransport)
+        super(BareProbe, self).__init__(selfAddr, others, conf, consumers=consumers, transportClass=SimTransport)
         self.count = 0
         self.chain = 0
         self.kv = {}
 
     def state_key(self):
         return (self.count, self.chain, tuple(sorted(self.kv.items())))
+
+
+class Probe(BareProbe):
 
     @replicated
     def append(self, cid, payload):
